@@ -407,8 +407,8 @@ fn enum_init_block(input: &Enum, ctx: &ImplContext) -> TokenStream {
     fields.extend(input.variants.iter()
         .map(VariantData::Variant).collect::<Vec<VariantData>>());
     
-    fields.extend(input.attrs.ghosts_attrs.iter()
-        .flat_map(|x| &x.attr.ghost_data)
+    fields.extend(input.attrs.ghosts_attr(&ctx.struct_attr.ty, &ctx.kind).iter()
+        .flat_map(|x| &x.ghost_data)
         .map(VariantData::GhostData));
 
     enum_init_block_inner(&mut fields.iter().peekable(), input, ctx)
@@ -490,7 +490,7 @@ fn variant_destruct_block(input: &Struct, ctx: &ImplContext) -> TokenStream {
     };
 
     if ctx.kind.is_from() {
-        idents.extend(input.attrs.ghosts_attrs.iter().flat_map(|x| &x.attr.ghost_data).map(|x| {
+        idents.extend(input.attrs.ghosts_attr(&ctx.struct_attr.ty, &ctx.kind).iter().flat_map(|x| &x.ghost_data).map(|x| {
             let ghost_ident = x.ghost_ident.get_ident();
             let ident = match ghost_ident {
                 Named(ident) => ident.to_token_stream(),
